@@ -7,7 +7,7 @@
     [sorts_to le r a] says: the run [r] returns [Ok b] (no panic, no hang) with [Permutation a b]
     and [Sorted le b].  [TotalPreorder cmp]: [cmp x y < 0 <-> 0 < cmp y x] and [cmp _ _ <= 0] is
     transitive (a Go comparator that is a total preorder; equal-comparing elements may differ). *)
-From Algo.C07 Require Import Model Spec ArrLemmas ProofsInsSel ProofsShell ProofsMerge ProofsHeap ProofsQuick ProofsQ3S.
+From Algo.C07 Require Import Model Spec ArrLemmas ProofsInsSel ProofsShell ProofsMerge ProofsHeap ProofsQuick ProofsQ3S ProofsMSDStr.
 Open Scope Z_scope.
 
 Section ComparisonSorts.
@@ -60,6 +60,9 @@ Proof. intros. apply Shuffle_perm. Qed.
     (bytewise lexicographic, a proper prefix first).  [Sorted str_le] + [Permutation] determine the
     output uniquely ([str_le] is antisymmetric), i.e. it is the natively sorted slice. *)
 
+Theorem C07_MSDString : forall a : list str, Forall is_str a -> sorts_to str_le (MSDString a) a.
+Proof. exact MSDString_correct. Qed.
+
 (** Quick3WayString: for every RNG oracle (every outcome of the initial shuffle). *)
 Theorem C07_Quick3WayString : forall (rnd : Z -> Z) (a : list str), Forall is_str a ->
   sorts_to str_le (Quick3WayString rnd a) a.
@@ -89,5 +92,6 @@ Print Assumptions C07_QuickCore.
 Print Assumptions C07_Quick3Way.
 Print Assumptions C07_Select.
 Print Assumptions C07_Shuffle.
+Print Assumptions C07_MSDString.
 Print Assumptions C07_Quick3WayString.
 Print Assumptions C07_Quick3WayStringCore.
